@@ -85,17 +85,67 @@ def run_entry(slot, entry, base_keys, all_pids):
             ok = not delta
             why = 'benign variant raised: %s' % delta if delta else ''
         else:
-            exp = entry['expect']   # list of key prefixes, each must match at least one new key
+            exp = entry['expect']   # list of key fragments, each must match at least one new key
             flat = [k for v in delta.values() for k in v]
             if any(k.startswith('ERROR') or 'extract-failed' in k for k in flat):
                 return entry, 'fail', 'mutant does not compile / extraction failed: %s' % flat[:1], delta
-            missing = [x for x in exp if not any(k.startswith(x) or x in k for k in flat)]
+            already = [k for pid in pids for k in base_keys.get(pid, set())]
+            missing = [x for x in exp if not any(k.startswith(x) or x in k for k in flat) and not any(k.startswith(x) or x in k for k in already)]
             ok = not missing
             why = 'expected key(s) not raised: %s; raised: %s' % (missing, flat) if missing else ''
         return entry, 'ok' if ok else 'fail', why, delta
     finally:
         shutil.rmtree(os.path.dirname(repo), ignore_errors=True)
-        # the scratch target dir is keyed by the scratch path; keep it for the next entry of this slot
+
+
+def run_entries(corpus, jobs, all_pids):
+    import threading
+    need = sorted({p for e in corpus for p in (e.get('props') or all_pids)})
+    base = keys_for(extract.REPO, need)
+    results = []
+    free = list(range(jobs))
+    lock = threading.Lock()
+
+    def work(entry):
+        with lock:
+            slot = free.pop()
+        try:
+            return run_entry(slot, entry, base, all_pids)
+        finally:
+            with lock:
+                free.append(slot)
+    with concurrent.futures.ThreadPoolExecutor(max_workers=jobs) as ex:
+        for fu in [ex.submit(work, e) for e in corpus]:
+            results.append(fu.result())
+    return results
+
+
+def cleanup(keep_targets=False):
+    shutil.rmtree(SCRATCH_ROOT, ignore_errors=True)
+    if not keep_targets:
+        # scratch target dirs are named target-<config>-<hash of the scratch path>
+        for d in os.listdir(extract.WORK):
+            if d.startswith('target-') and d.count('-') >= 2:
+                shutil.rmtree(os.path.join(extract.WORK, d), ignore_errors=True)
+
+
+def run_for(pid, jobs=8):
+    """thorough-tier entry: replay the corpus entries that name this property"""
+    corpus = [e for e in load_corpus() if pid in (e.get('props') or [])]
+    manifest = json.load(open(os.path.join(VERIF, 'MANIFEST.json')))
+    all_pids = [c['property_id'] for c in manifest['checks']]
+    # only look at this property's rules
+    corpus = [dict(e, props=[pid], expect=[x for x in e.get('expect', []) if x.startswith(pid + '.') or ':' + pid in x or x.startswith('anchor-lost:' + pid)] or
+                   ([] if e['kind'] == 'benign' else [pid + '.'])) for e in corpus]
+    results = run_entries(corpus, jobs, all_pids) if corpus else []
+    cleanup(keep_targets=os.environ.get('CFR_KEEP_SCRATCH') == '1')
+    lines = []
+    for entry, status, why, delta in results:
+        flat = [k for v in delta.values() for k in v]
+        lines.append('%-7s %-7s %-46s %s' % (status.upper(), entry['kind'], entry['id'], why or ', '.join(flat)[:160]))
+    return {'entries': len(results), 'ok': sum(1 for r in results if r[1] == 'ok'), 'failed': sum(1 for r in results if r[1] == 'fail'),
+            'skipped': sum(1 for r in results if r[1] == 'skipped'), 'mutants': sum(1 for r in results if r[0]['kind'] == 'mutant'),
+            'benign': sum(1 for r in results if r[0]['kind'] == 'benign'), 'lines': lines}
 
 
 def main(argv):
@@ -106,6 +156,7 @@ def main(argv):
     ap.add_argument('--jobs', type=int, default=6)
     ap.add_argument('--list', action='store_true')
     ap.add_argument('--kind')
+    ap.add_argument('--keep', action='store_true', help='keep scratch target dirs (faster re-runs)')
     a = ap.parse_args(argv)
     corpus = load_corpus()
     if a.only:
@@ -121,38 +172,14 @@ def main(argv):
         return 0
     manifest = json.load(open(os.path.join(VERIF, 'MANIFEST.json')))
     all_pids = [c['property_id'] for c in manifest['checks']]
-    need = sorted({p for e in corpus for p in (e.get('props') or all_pids)})
-    base = keys_for(extract.REPO, need)
-    results = []
-    with concurrent.futures.ThreadPoolExecutor(max_workers=a.jobs) as ex:
-        futs = []
-        free = list(range(a.jobs))
-        import threading
-        lock = threading.Lock()
-
-        def work(entry):
-            with lock:
-                slot = free.pop()
-            try:
-                return run_entry(slot, entry, base, all_pids)
-            finally:
-                with lock:
-                    free.append(slot)
-        for e in corpus:
-            futs.append(ex.submit(work, e))
-        for fu in futs:
-            results.append(fu.result())
+    results = run_entries(corpus, a.jobs, all_pids)
     nfail = 0
     for entry, status, why, delta in results:
         flat = [k for v in delta.values() for k in v]
         print('%-7s %-7s %-48s %s' % (status.upper(), entry['kind'], entry['id'], why or (', '.join(flat)[:150])))
         if status == 'fail':
             nfail += 1
-    shutil.rmtree(SCRATCH_ROOT, ignore_errors=True)
-    # scratch target dirs
-    for d in os.listdir(extract.WORK):
-        if d.startswith('target-') and d.count('-') >= 2:
-            pass
+    cleanup(keep_targets=a.keep)
     print('selftest: %d entries, %d ok, %d failed, %d skipped' % (
         len(results), sum(1 for r in results if r[1] == 'ok'), nfail, sum(1 for r in results if r[1] == 'skipped')))
     if nfail:
